@@ -1,14 +1,6 @@
 #!/bin/sh
-# Re-run every kept seeded change against the CURRENT /repo with its owning check; table on stdout.
-cd /verif
-git -C /repo diff --quiet || { echo "/repo dirty"; exit 9; }
-for d in /verif/seeded/*/; do
-  n=$(basename $d)
-  chk=$(python3 -c "import json; m=json.load(open('$d/meta.json')); db=m.get('detected_by','none'); print(db.split()[0] if db.startswith('C') else m['property'])")
-  if ! git -C /repo apply --check $d/patch.diff 2>/dev/null; then echo "$n | $chk | PATCH-DOES-NOT-APPLY"; continue; fi
-  git -C /repo apply $d/patch.diff
-  ./check $chk --tier quick > /tmp/seedreg_$n.out 2>&1; code=$?
-  git -C /repo checkout -- .
-  key=$(grep -m1 '^  key=' /tmp/seedreg_$n.out | cut -c7-90)
-  echo "$n | $chk | exit=$code | $key"
-done
+# Re-run every kept seeded change against the CURRENT /repo HEAD with the check that is recorded as
+# catching it; one scratch worktree per seed (outside /repo and /verif, removed afterwards), so
+# /repo itself is never touched.  usage: tools/seeds_regress.sh [parallelism] [seed-name-pattern]
+par=${1:-3}; pat=${2:-.}
+ls /verif/seeded | grep -E "$pat" | xargs -P $par -n 1 /verif/tools/seed_regress_one.sh
